@@ -11,7 +11,9 @@ Translation (Rust expression over `F: Float` -> Coq term over `binary_float prec
     a <= b, a < b                ->  Bleb a b, Bltb a b          (a >= b, a > b are swapped)
     self.f, self.g.f, local x    ->  variable f, g_f, x
     F::one(), F::from(1.).unwrap() -> Bone;  F::zero() -> B754_zero false;  F::infinity() -> B754_infinity false
-    any method call on a value (ln, exp, powf, tan, recip ...)  ->  an opaque float variable opq<k>, numbered by first occurrence
+    x.sqrt()                     ->  Bsqrt mode_NE x             (correctly rounded IEEE operation)
+    let x = e; ... tail          ->  let x := e in ... tail ;   if c { a } else { b }  ->  if c then a else b
+    any other method call on a value (ln, exp, powf, tan, recip ...)  ->  an opaque float variable opq<k>, numbered by first occurrence
 Parameters of the generated definition are its variables in order of first occurrence.
 A site that cannot be found or parsed yields `Definition src_<name> : unit := tt.` so that exactly the theorems about it break.
 """
@@ -52,8 +54,30 @@ class P:
         self.eat(")")
         return a
 
+    def block(self):
+        """`let` statements followed by a trailing expression, up to the closing brace / end of the tokens"""
+        lets = []
+        while self.peek() == "let":
+            self.eat("let")
+            if self.peek() == "mut": self.eat("mut")
+            name = self.eat()
+            if self.peek() == ":":                 # type annotation: skip to `=`
+                while self.peek() != "=": self.eat()
+            self.eat("=")
+            lets.append((name, self.expr(0)))
+            self.eat(";")
+        tail = self.expr(0)
+        return ("block", lets, tail) if lets else tail
+
     def primary(self):
         v = self.peek()
+        if v == "if":
+            self.eat("if")
+            c = self.expr(0)
+            self.eat("{"); a = self.block(); self.eat("}")
+            self.eat("else")
+            self.eat("{"); b = self.block(); self.eat("}")
+            return ("if", c, a, b)
         if v == "(":
             self.eat("(")
             e = self.expr(0)
@@ -108,7 +132,7 @@ class P:
 
 def parse_all(toks):
     p = P(toks)
-    e = p.expr(0)
+    e = p.block()
     if p.i != len(toks):
         raise Unsupported("trailing tokens %r" % (toks[p.i:p.i + 4],))
     return e
@@ -117,9 +141,11 @@ def parse_all(toks):
 # ---------------------------------------------------------------- lowering to Flocq
 class Lower:
     def __init__(self):
-        self.params, self.opq = [], {}
+        self.params, self.opq, self.bound = [], {}, []
 
     def var(self, name):
+        if name in self.bound:
+            return name
         if name not in self.params:
             self.params.append(name)
         return name
@@ -141,6 +167,20 @@ class Lower:
             if x == ("var", "self"):              # self.f -> f ; self.g.f -> g_f
                 return self.var("_".join(reversed(names)))
             return self.opaque(e)
+        if k == "block":
+            out, n = "", 0
+            for name, rhs in e[1]:
+                r = self.go(rhs)
+                out += "(let %s := %s in " % (name, r); n += 1
+                self.bound.append(name)
+            out += self.go(e[2]) + ")" * n
+            for _ in range(n): self.bound.pop()
+            return out
+        if k == "if":
+            c = self.go(e[1])
+            a = self.go(e[2])
+            b = self.go(e[3])
+            return "(if %s then %s else %s)" % (c, a, b)
         if k == "neg":
             return "(Bopp %s)" % self.go(e[1])
         if k == "bin":
@@ -168,6 +208,8 @@ class Lower:
                 if float(lit) == 1.0:
                     return "(@Bone prec emax Hp Hpe)"
                 raise Unsupported("literal %s" % lit)
+            if e[2] == "sqrt" and not e[3]:       # correctly rounded IEEE operation, not libm
+                return "(Bsqrt mode_NE %s)" % self.go(e[1])
             return self.opaque(e)
         raise Unsupported("expression %r" % (e,))
 
@@ -279,6 +321,7 @@ SITES = [
     ("unit_ball_accept", "unit_ball.rs", "UnitBall", "sample", sel_if_break),
     ("dirichlet_stick_out", "multi/dirichlet.rs", "DirichletFromBeta", "sample_to_slice", sel_assign(["*", "s"])),
     ("dirichlet_stick_acc", "multi/dirichlet.rs", "DirichletFromBeta", "sample_to_slice", sel_assign(["acc"])),
+    ("triangular_sample", "triangular.rs", "Triangular", "sample", lambda body: body),
     ("exp_sample", "exponential.rs", "Exp", "sample", sel_tail),
     ("weibull_sample", "weibull.rs", "Weibull", "sample", sel_tail),
     ("pareto_sample", "pareto.rs", "Pareto", "sample", sel_tail),
